@@ -23,9 +23,12 @@ RULE = ("a case is one (record, channels, algorithm variant, setting, transforma
         "coordinates; non-trivial = the transformation is not the identity and the original run reports at least one "
         "pole / selected line whose value is compared (all lattice pairs are built that way)")
 ASSUMPTIONS = [
-    "tolerances: 1e-9 on SSI and FDD-family tables (Fn relative, Xi absolute, shapes component-wise after a common "
-    "normalisation), 1e-4 on pLSCF tables, 1e-6 on the EFDD/FSDD damping and frequency (the library's fit is scipy "
-    "curve_fit with finite-difference Jacobian, whose own noise floor is ~1e-10), 1e-12 on the unit component",
+    "tolerances: 1e-9 on FDD-family tables, 1e-8 on SSI tables (worst observed over the thorough lattice, seeds 0-4: 3e-10, on "
+    "spurious poles of the largest models), 1e-4 on pLSCF tables (observed 9e-8) - Fn relative, Xi absolute, shapes "
+    "component-wise after a common normalisation; 1e-6 on the EFDD/FSDD damping and frequency (the library's fit is scipy "
+    "curve_fit with a finite-difference Jacobian, observed noise 3e-8); 1e-12 on the unit component",
+    "records carry a noise floor of at least ~1.5 % of the signal amplitude (decided when the record is built): on (nearly) "
+    "noise-free data the spurious poles of over-specified models are ill-conditioned and no tolerance can be stated",
     "spectra and stored singular values are compared up to one positive constant per table (the statement speaks about "
     "frequencies, damping ratios and shapes only)",
     "orthogonal mixing runs with MPC/MPD switched off (mpc_lim=-1, mpd_lim=1e9): MPC with mean removal is not rotation "
@@ -36,7 +39,7 @@ ASSUMPTIONS = [
 ]
 
 FS = 100.0
-TOL = {"ssi": 1e-9, "fdd": 1e-9, "plscf": 1e-4}
+TOL = {"ssi": 1e-8, "fdd": 1e-9, "plscf": 1e-4}
 TOL_FIT = 1e-6
 TOL_UNIT = 1e-12
 
